@@ -224,7 +224,8 @@ def run(ctx):
         return
     ctx.rule = ("prim: list of 0..6 values with Indexes nil / well-formed sparse / wrong length / unsorted-duplicate-negative, "
                 "index -2..29; hist: 1..20 operations (a[k]=v, a[k]+=v, unset 'a[k]', a=(...), a+=(...) with [k]=v items, a=v, a+=v, "
-                "unset a, ${a[k]=v}, ${a[k]:=v}) with indices small / max+1 / beyond / negative in and out of range, values incl. "
+                "unset a, ${a[k]=v}, ${a[k]:=v}) with indices small / max+1 / beyond / negative in and out of range, or written as "
+                "side-effecting expressions over i, j, k (i++, --k, j-=3, k=k+1, ...) whose values are dumped after every step, values incl. "
                 "empty and with a space, each step followed by ${a[k]}, ${!a[@]}, ${#a[@]}, ${a[@]:o:l}, ${a[@]:o}; "
                 "shell: the same histories (error-free ones) as programs in 6 contexts; non-trivial = history that reaches a sparse array")
 
@@ -239,6 +240,12 @@ def run(ctx):
             ts = []
             for si, s in enumerate(h["steps"]):
                 t = step_term(s)
+                if not s.get("p") and s.get("ivok") is False:
+                    hpre.append({"history": [x["stmt"] + ("   # then rd=\"${a[%s]}\"" % x["rx"] if x.get("rx") else "")
+                                             for x in h["steps"][:si + 1]],
+                                 "index_variables_i_j_k": s.get("ivgot"), "expected_after_one_evaluation_each": s.get("ivexp"),
+                                 "why": "a subscript expression was not evaluated exactly once"})
+                    break
                 if t is None:
                     hpre.append({"history": [x["stmt"] for x in h["steps"][:si + 1]], "go_var": s["var"],
                                  "why": "Go value outside the modelled kinds (Kind/Set combination)"})
